@@ -182,6 +182,24 @@ type Obs struct {
 	NoTriage bool
 }
 
+// Classes returns the labels recorded so far (for enumerators that tally themselves).
+func (o *Obs) Classes() []string { return o.classes }
+
+// AddObs folds one case's observation into the tally.
+func (t *Tally) AddObs(o *Obs) {
+	t.Evals++
+	if o.NT {
+		t.NT++
+	}
+	seen := map[string]bool{}
+	for _, c := range o.classes {
+		if !seen[c] {
+			seen[c] = true
+			t.Classes[c]++
+		}
+	}
+}
+
 func (o *Obs) Class(name string)        { o.classes = append(o.classes, name) }
 func (o *Obs) ClassIf(c bool, n string) { if c { o.classes = append(o.classes, n) } }
 func (o *Obs) Known(id string)          { o.known = append(o.known, id) }
